@@ -141,6 +141,7 @@ func init() {
 			e.roundings = nil
 			return nil
 		},
+		"verifCbrt": func(e *Exec, fr *frame, args []Value) Value { return e.cubeRoot(args[0].(*Term)) },
 		"verifIsSymbolic": func(e *Exec, fr *frame, args []Value) Value { return e.B.Bool(true) },
 		"verifSteps": func(e *Exec, fr *frame, args []Value) Value { return e.mkInt(e.steps) },
 		"verifAllocated": func(e *Exec, fr *frame, args []Value) Value { return e.mkInt(e.allocated) },
